@@ -10,7 +10,7 @@ C01_setstage_siblings_disjoint C01_setstage_nodeset_decomposition C01_setstage_a
 C01_setstage_nested_memory_shares_cpuset C01_setstage_nested_memory_within_allowed
 C01_links_of_render C01_renderCheck_sound
 C01_remove_empty_rule C01_remove_empty_fixpoint C01_remove_empty_idempotent C01_remove_empty_root_removed C01_remove_empty_preserves
-C01_remove_empty_preserves_set_clauses C01_remove_empty_preserves_nodeset_decomposition C01_remove_empty_typed C01_pipeline_typing C01_total_memory_stage C01_total_memory_clause C01_group_depth_stage
+C01_remove_empty_preserves_set_clauses C01_remove_empty_preserves_nodeset_decomposition C01_remove_empty_typed C01_remove_empty_keeps_nonempty C01_pipeline_typing C01_pipeline_sets_through_merging C01_total_memory_stage C01_total_memory_clause C01_group_depth_stage
 C01_pipeline_compose""".split()]
 TRUSTED = ["C01_discovery_by_insertion is about the model of hwloc___insert_object_by_cpuset (lean/Hw/Topo/Insert.lean); that model is tied to the "
            "code by the C02 history engine, which predicts the exact tree after every hwloc_topology_insert_group_object call (new object = "
